@@ -1,11 +1,79 @@
+import TinysetModel.Proofs.Fits
 import TinysetModel.Proofs.Consts
-/-! C03 — see /verif/properties.jsonl.  Theorems for this property are being added; the ones
-below are the obligations checked so far. -/
+/-! C03 — the public 64-bit encoding `Fits64` is lossless, injective and small, for every supported type.
+The definitions `Gen.to_u64_<ty>` / `Gen.from_u64_<ty>` are regenerated from `src/set64.rs` on every run
+(tools/gen_fits.py), so these theorems are about the macro bodies as they are in the source now.
+`Set64<T>` forwards every operation to `SetU64` through `to_u64` (the harness validates typed histories against the
+`SetU64` model under exactly this encoding), so with injectivity a `Set64<T>` history is a `SetU64` history on distinct codes. -/
 namespace C03
-open SC
 
-/-- the model's constants are the ones in the current source -/
-theorem consts_match : TinyC.codec64.splits = Gen.bitsplits64 ∧ TinyC.codec32.splits = Gen.bitsplits32 :=
-  ⟨bitsplits64_match, bitsplits32_match⟩
+/-- `u64`: `from_u64(to_u64(x)) = x` for every value -/
+theorem roundtrip_u64 (x : BitVec 64) : Gen.from_u64_u64 (Gen.to_u64_u64 x) = x := from_to_u64 x
+theorem injective_u64 (x y : BitVec 64) (h : Gen.to_u64_u64 x = Gen.to_u64_u64 y) : x = y := to_injective_u64 x y h
+/-- `usize`: `from_u64(to_u64(x)) = x` for every value -/
+theorem roundtrip_usize (x : BitVec 64) : Gen.from_u64_usize (Gen.to_u64_usize x) = x := from_to_usize x
+theorem injective_usize (x y : BitVec 64) (h : Gen.to_u64_usize x = Gen.to_u64_usize y) : x = y := to_injective_usize x y h
+/-- `u32`: `from_u64(to_u64(x)) = x` for every value -/
+theorem roundtrip_u32 (x : BitVec 32) : Gen.from_u64_u32 (Gen.to_u64_u32 x) = x := from_to_u32 x
+theorem injective_u32 (x y : BitVec 32) (h : Gen.to_u64_u32 x = Gen.to_u64_u32 y) : x = y := to_injective_u32 x y h
+/-- `u16`: `from_u64(to_u64(x)) = x` for every value -/
+theorem roundtrip_u16 (x : BitVec 16) : Gen.from_u64_u16 (Gen.to_u64_u16 x) = x := from_to_u16 x
+theorem injective_u16 (x y : BitVec 16) (h : Gen.to_u64_u16 x = Gen.to_u64_u16 y) : x = y := to_injective_u16 x y h
+/-- `u8`: `from_u64(to_u64(x)) = x` for every value -/
+theorem roundtrip_u8 (x : BitVec 8) : Gen.from_u64_u8 (Gen.to_u64_u8 x) = x := from_to_u8 x
+theorem injective_u8 (x y : BitVec 8) (h : Gen.to_u64_u8 x = Gen.to_u64_u8 y) : x = y := to_injective_u8 x y h
+/-- `i8`: `from_u64(to_u64(x)) = x` for every value -/
+theorem roundtrip_i8 (x : BitVec 8) : Gen.from_u64_i8 (Gen.to_u64_i8 x) = x := from_to_i8 x
+theorem injective_i8 (x y : BitVec 8) (h : Gen.to_u64_i8 x = Gen.to_u64_i8 y) : x = y := to_injective_i8 x y h
+/-- `i16`: `from_u64(to_u64(x)) = x` for every value -/
+theorem roundtrip_i16 (x : BitVec 16) : Gen.from_u64_i16 (Gen.to_u64_i16 x) = x := from_to_i16 x
+theorem injective_i16 (x y : BitVec 16) (h : Gen.to_u64_i16 x = Gen.to_u64_i16 y) : x = y := to_injective_i16 x y h
+/-- `i32`: `from_u64(to_u64(x)) = x` for every value -/
+theorem roundtrip_i32 (x : BitVec 32) : Gen.from_u64_i32 (Gen.to_u64_i32 x) = x := from_to_i32 x
+theorem injective_i32 (x y : BitVec 32) (h : Gen.to_u64_i32 x = Gen.to_u64_i32 y) : x = y := to_injective_i32 x y h
+/-- `i64`: `from_u64(to_u64(x)) = x` for every value -/
+theorem roundtrip_i64 (x : BitVec 64) : Gen.from_u64_i64 (Gen.to_u64_i64 x) = x := from_to_i64 x
+theorem injective_i64 (x y : BitVec 64) (h : Gen.to_u64_i64 x = Gen.to_u64_i64 y) : x = y := to_injective_i64 x y h
+/-- `isize`: `from_u64(to_u64(x)) = x` for every value -/
+theorem roundtrip_isize (x : BitVec 64) : Gen.from_u64_isize (Gen.to_u64_isize x) = x := from_to_isize x
+theorem injective_isize (x y : BitVec 64) (h : Gen.to_u64_isize x = Gen.to_u64_isize y) : x = y := to_injective_isize x y h
+/-- `u64` encodes to itself -/
+theorem small_u64 (x : BitVec 64) : (Gen.to_u64_u64 x).toNat = x.toNat := to_small_u64 x
+/-- `usize` encodes to itself -/
+theorem small_usize (x : BitVec 64) : (Gen.to_u64_usize x).toNat = x.toNat := to_small_usize x
+/-- `u32` encodes to itself -/
+theorem small_u32 (x : BitVec 32) : (Gen.to_u64_u32 x).toNat = x.toNat := to_small_u32 x
+/-- `u16` encodes to itself -/
+theorem small_u16 (x : BitVec 16) : (Gen.to_u64_u16 x).toNat = x.toNat := to_small_u16 x
+/-- `u8` encodes to itself -/
+theorem small_u8 (x : BitVec 8) : (Gen.to_u64_u8 x).toNat = x.toNat := to_small_u8 x
+/-- `i8`: the code is at most `2|x| + 1` (exactly `2x` for `x ≥ 0`, `2|x| - 1` for `x < 0`) -/
+theorem small_i8 (x : BitVec 8) : (Gen.to_u64_i8 x).toNat ≤ 2 * x.toInt.natAbs + 1 := to_small_i8 x
+theorem exact_nonneg_i8 (x : BitVec 8) (h : 0 ≤ x.toInt) : (Gen.to_u64_i8 x).toNat = 2 * x.toInt.toNat := to_exact_nonneg_i8 x h
+theorem exact_neg_i8 (x : BitVec 8) (h : x.toInt < 0) : (Gen.to_u64_i8 x).toNat = 2 * x.toInt.natAbs - 1 := to_exact_neg_i8 x h
+/-- `i16`: the code is at most `2|x| + 1` (exactly `2x` for `x ≥ 0`, `2|x| - 1` for `x < 0`) -/
+theorem small_i16 (x : BitVec 16) : (Gen.to_u64_i16 x).toNat ≤ 2 * x.toInt.natAbs + 1 := to_small_i16 x
+theorem exact_nonneg_i16 (x : BitVec 16) (h : 0 ≤ x.toInt) : (Gen.to_u64_i16 x).toNat = 2 * x.toInt.toNat := to_exact_nonneg_i16 x h
+theorem exact_neg_i16 (x : BitVec 16) (h : x.toInt < 0) : (Gen.to_u64_i16 x).toNat = 2 * x.toInt.natAbs - 1 := to_exact_neg_i16 x h
+/-- `i32`: the code is at most `2|x| + 1` (exactly `2x` for `x ≥ 0`, `2|x| - 1` for `x < 0`) -/
+theorem small_i32 (x : BitVec 32) : (Gen.to_u64_i32 x).toNat ≤ 2 * x.toInt.natAbs + 1 := to_small_i32 x
+theorem exact_nonneg_i32 (x : BitVec 32) (h : 0 ≤ x.toInt) : (Gen.to_u64_i32 x).toNat = 2 * x.toInt.toNat := to_exact_nonneg_i32 x h
+theorem exact_neg_i32 (x : BitVec 32) (h : x.toInt < 0) : (Gen.to_u64_i32 x).toNat = 2 * x.toInt.natAbs - 1 := to_exact_neg_i32 x h
+/-- `i64`: the code is at most `2|x| + 1` (exactly `2x` for `x ≥ 0`, `2|x| - 1` for `x < 0`) -/
+theorem small_i64 (x : BitVec 64) : (Gen.to_u64_i64 x).toNat ≤ 2 * x.toInt.natAbs + 1 := to_small_i64 x
+theorem exact_nonneg_i64 (x : BitVec 64) (h : 0 ≤ x.toInt) : (Gen.to_u64_i64 x).toNat = 2 * x.toInt.toNat := to_exact_nonneg_i64 x h
+theorem exact_neg_i64 (x : BitVec 64) (h : x.toInt < 0) : (Gen.to_u64_i64 x).toNat = 2 * x.toInt.natAbs - 1 := to_exact_neg_i64 x h
+/-- `isize`: the code is at most `2|x| + 1` (exactly `2x` for `x ≥ 0`, `2|x| - 1` for `x < 0`) -/
+theorem small_isize (x : BitVec 64) : (Gen.to_u64_isize x).toNat ≤ 2 * x.toInt.natAbs + 1 := to_small_isize x
+theorem exact_nonneg_isize (x : BitVec 64) (h : 0 ≤ x.toInt) : (Gen.to_u64_isize x).toNat = 2 * x.toInt.toNat := to_exact_nonneg_isize x h
+theorem exact_neg_isize (x : BitVec 64) (h : x.toInt < 0) : (Gen.to_u64_isize x).toNat = 2 * x.toInt.natAbs - 1 := to_exact_neg_isize x h
+/-- `char` (as its scalar value): the round trip never hits the `unwrap` on `None` -/
+theorem roundtrip_char (c : BitVec 32) (h : Gen.isScalar c = true) : Gen.from_u64_char (Gen.to_u64_char c) = some c := from_to_char c h
+theorem injective_char (x y : BitVec 32) (h : Gen.to_u64_char x = Gen.to_u64_char y) : x = y := to_injective_char x y h
+theorem small_char (c : BitVec 32) : (Gen.to_u64_char c).toNat = c.toNat := to_small_char c
+/-- every integer implementation in the source is covered above -/
+theorem all_types_covered : Gen.fitsTypes.map (·.1) = ["u64", "u32", "u16", "u8", "usize", "i8", "i16", "i32", "i64", "isize"] := by decide
+/-- non-vacuity: `-1i8 ↦ 1`, `i8::MIN ↦ 255`, `127i8 ↦ 254` -/
+example : (Gen.to_u64_i8 0xFF#8).toNat = 1 ∧ (Gen.to_u64_i8 0x80#8).toNat = 255 ∧ (Gen.to_u64_i8 0x7F#8).toNat = 254 := by decide
 
 end C03
